@@ -45,7 +45,7 @@ Proof.
   intros b old rest Hok He.
   destruct b as [[s n]|[s n]|[s n]|[s n] [ck pt]|[s n]|[s n] [ck pt]|[s n] [ck pt]
                  |[s n] utc p1 [cls acc var] p2 gm steps src|[ck pt]|[ck pt] sh hp act];
-    cbn [body_ok ts_ok pid_ok cq_ok ts_secs ts_nanos pid_clock pid_port cq_class cq_acc cq_var] in Hok; unfold is_byte in Hok.
+    unfold body_ok, ts_ok, pid_ok, cq_ok, is_byte in Hok; cbn [ts_secs ts_nanos pid_clock pid_port cq_class cq_acc cq_var] in Hok.
   - (* Sync *) destruct Hok as (Hs & Hn). wire_compute.
     unbe_rewrite s 6%nat. unbe_rewrite n 4%nat. change (256 ^ Z.of_nat 6) with (2 ^ 48). change (256 ^ Z.of_nat 4) with (2 ^ 32).
     rewrite !Z.mod_small by lia. replace (n >? 1000000000) with false by lia. reflexivity.
